@@ -32,7 +32,7 @@ e == Log[l]
 Proc(g) == IF g \in DOMAIN gm THEN gm[g] ELSE "none"
 (* the asynchronous closer is a goroutine the library starts itself: the first unmapped goroutine that enters close() while the *)
 (* model's closer is waiting to start is it                                                                                      *)
-IsAC == e.g \notin DOMAIN gm /\ e.ev = "CloseEnter" /\ AC \in Procs /\ pc[AC] = "ac_cl0"
+IsAC == e.g \notin DOMAIN gm /\ e.ev = "CloseEnter" /\ AC \in Procs /\ pc[AC] \in {"ac_cl0", "ac_clA"}
 q == IF IsAC THEN AC ELSE Proc(e.g)
 Stutter == UNCHANGED vars
 Pfx(x) == IF x = R THEN "r" ELSE "k"
@@ -45,8 +45,9 @@ At(x, suffix) == { t \in FC : t[1] = x /\ pc[x] = t[2] \o suffix }
 (* close() bodies: <<process, stage, label after, readMu held>> *)
 CC == { <<AC, "ac", "ac_done", FALSE>>, <<K, "k", "k_wg", FALSE>>, <<R, "rx", "r_rdunlock", TRUE>>, <<R, "rxf", "r_rdunlock", FALSE>>,
         <<K, "kx", "k_rdunlock", TRUE>>, <<K, "kxf", "k_rdunlock", FALSE>>,
-        <<N, "n", "n_wg", FALSE>>, <<N, "nl", "nl_wg", FALSE>> }       \* CloseNow: close() whether it won casClosing or not
-Closers == {R, K, AC, N} \cap Procs                                             \* the processes that run close()
+        <<N, "n", "n_wg", FALSE>>, <<N, "nl", "nl_wg", FALSE>>,        \* CloseNow: close() whether it won casClosing or not
+        <<P, "pc", "p_fin", FALSE>> }                                   \* Ping whose context expired while it waited for the pong
+Closers == {R, K, AC, N, P} \cap Procs                                             \* the processes that run close()
 CasProcs == {K, N} \cap Procs                                                   \* ... and casClosing / waitGoroutines
 InClose(x, suffix) == { t \in CC : t[1] = x /\ pc[x] = t[2] \o suffix }
 
@@ -67,10 +68,14 @@ RdUnlock(x) == /\ pc[x] = Pfx(x) \o "_rdunlock"
 Mapped ==
   CASE e.ev = "TraceReset" -> ResetConn
     \* goroutines that are none of the four actors (the harness ending the run with CloseNow): not part of the scenario
-    [] q = "none" /\ e.ev \notin {"PeerSent", "TLExit"} -> Stutter
+    [] q = "none" /\ e.ev \notin {"PeerSent", "TLExit", "CtxCancel"} -> Stutter
     \* ---------------- channel mutexes ----------------
     [] e.ev = "LockOK" /\ e.l = "wf" -> \E t \in At(q, "_wflock") : FrameLock(q, t[2], t[3]) /\ pc'[q] = t[2] \o "_arm"
     [] e.ev \in {"LockFailClosed", "LockAcqSawClosed"} /\ e.l = "wf" -> \E t \in At(q, "_wflock") : FrameLock(q, t[2], t[3]) /\ pc'[q] = t[3]
+    \* the caller's context was done while it waited for a lock: the call fails and an asynchronous closer is started (TryLock, third
+    \* case); msgWriter.writeMu is not a lock of the model (only its owner ever takes it): its failure is the failure of the frame
+    [] e.ev = "LockFailCtx" /\ e.l \in {"wf", "wmu"} /\ q \in CtxProcs -> \E t \in At(q, "_wflock") : FrameLock(q, t[2], t[3]) /\ pc'[q] = t[3]
+    [] e.ev = "LockFailCtx" /\ e.l = "msg" /\ q \in CtxProcs -> WMsgLock(q) /\ pc'[q] = "w_done"
     [] e.ev = "LockOK" /\ e.l = "msg" -> WMsgLock(q) /\ pc'[q] = "w_wflock"
     [] e.ev \in {"LockFailClosed", "LockAcqSawClosed"} /\ e.l = "msg" -> WMsgLock(q) /\ pc'[q] = "w_done"
     [] e.ev = "LockOK" /\ e.l = "rd" -> IF q = R THEN RLock /\ pc'[R] = "r_hdr_in"
@@ -99,12 +104,17 @@ Mapped ==
                          ELSE Stutter
     [] e.ev = "WfHeader" -> \E t \in At(q, "_hdr") : FrameHdr(q, t[2]) /\ (IF Kind(q, t[2]) = "data" THEN e.a \in {0, 1, 2} ELSE e.a = OpCode(Kind(q, t[2])))
     [] e.ev = "WfPayload" -> \E t \in At(q, "_pay") : FramePay(q, t[2])
-    [] e.ev \in {"WfDisarm", "WfDisarmClosed"} -> \E t \in At(q, "_disarm") : FrameDisarm(q, t[2])
+    \* handing the context back succeeded / found the connection closed; like WfArm the line follows the select (EarlyDisarm)
+    [] e.ev = "WfDisarm" -> IF At(q, "_disarm") # {} THEN \E t \in At(q, "_disarm") : FrameDisarm(q, t[2]) /\ ret' = ret /\ tl = "running"
+                            ELSE At(q, "_wfunlock") # {} /\ Stutter
+    [] e.ev = "WfDisarmClosed" -> \E t \in At(q, "_disarm") : FrameDisarm(q, t[2]) /\ (q \in CtxProcs => ret'[q] = "failed")
     \* ---------------- Ping ----------------
     [] e.ev = "PingReg" -> PReg
     [] e.ev = "PingResPong" -> PWait /\ ret'[P] = "nil"
     [] e.ev = "PingResClosed" -> PWait /\ ret'[P] = "errClosed"
-    [] e.ev = "PingUnreg" -> IF pc[P] = "p_wait" THEN PWait ELSE Stutter       \* the ping frame could not be written: Ping returns that error
+    [] e.ev = "PingResCtx" -> PWaitCtx
+    [] e.ev = "PingUnreg" -> IF pc[P] = "p_wait" THEN PWait          \* the ping frame could not be written: Ping returns that error
+                             ELSE IF pc[P] = "p_fin" THEN PFin ELSE Stutter
     \* ---------------- the read loop (Read, or the loop inside Close) ----------------
     \* ReadFrame takes a whole frame; a control frame has been read when its payload has (CtlPayload) -- the connection may be
     \* closed under the payload read, and the reader then leaves as if it had been woken before the frame (UnlockPre rd, silent step)
@@ -123,14 +133,15 @@ Mapped ==
     \* ---------------- Close / close() ----------------
     [] e.ev \in {"CasClosingOK", "CasClosingFail"} -> q \in CasProcs /\ pc[q] = (IF q = K THEN "k_cas" ELSE "n_cas") /\ Stutter   \* placed by the silent step Pending
     [] e.ev = "CloseEnter" /\ q \in Closers ->
-         \E t \in InClose(q, "_cl0") :
+         IF InClose(q, "_cl0") = {} THEN InClose(q, "_clA") # {} /\ Stutter      \* closeMu was taken before this line (EarlyAcquire)
+         ELSE \E t \in InClose(q, "_cl0") :
             IF t[4] THEN (IF q = R THEN Reader ELSE Closer) /\ pc'[q] = t[2] \o "_clA"
             ELSE IF q = AC THEN AsyncCloser /\ pc'[AC] = "ac_clA"
             ELSE CmAcquire(q, t[2])
     \* the timeoutLoop closing the connection because the 5 s context of Close's read loop is done: its close() is collapsed in
     \* the model (T5); the flag flips between its ClosedPre and ClosedPost like anybody's
     [] q = "TL" /\ e.ev = "ClosedPre" -> ~closed /\ Stutter
-    [] q = "TL" /\ e.ev = "ClosedPost" -> IF win = "TL" THEN T5(K, "k") ELSE Stutter
+    [] q = "TL" /\ e.ev = "ClosedPost" -> IF win = "TL" THEN (T5(K, "k") \/ TLFireW) ELSE Stutter
     [] q = "TL" /\ e.ev # "TLExit" -> Stutter
     [] e.ev = "CloseAlready" /\ q \in Closers -> closed /\ \E t \in InClose(q, "_clA") : CmFlip(q, t[2])
     \* rule R3: close(c.closed) happens somewhere between the lines ClosedPre and ClosedPost; the flip is placed by a silent step
@@ -141,7 +152,9 @@ Mapped ==
     [] e.ev = "CloseExit" /\ q \in Closers -> InClose(q, "_clZ") # {} /\ Stutter       \* closeMu is released after this line: silent
     \* waitGoroutines' last step, logged while it holds closeMu (so that "closeMu was free" is observed where it is true)
     [] e.ev = "WgCloseMu" /\ q \in CasProcs -> Stutter                                   \* placed by the silent step Pending
-    [] e.ev = "TLExit" -> TLExit
+    [] e.ev = "TLExit" -> "TL" \notin rel /\ (IF tl = "exited" THEN Stutter ELSE TLExit)   \* (a timeoutLoop that fired leaves by TLCloseDone)
+    \* the application cancels the context of a call (announced by the harness before it calls cancel())
+    [] e.ev = "CtxCancel" -> CtxCancel(e.s)
     \* ---------------- the peer (announced by the harness before the bytes are written) ----------------
     [] e.ev = "PeerSent" /\ e.a = OpPong -> SawOut("ping") /\ PeerAct("pong", "pong")
     [] e.ev = "PeerSent" /\ e.a = OpClose -> PeerAct("close", "close") \/ (SawOut("close") /\ PeerAct("echo", "close"))
@@ -159,7 +172,8 @@ Consume == /\ l <= Len(Log) /\ l' = l + 1 /\ sil' = 0
            /\ skip' = IF e.ev = "TraceReset" THEN FALSE ELSE (skip \/ R3Reorder \/ e.ev = "Aborted")   \* Aborted: the harness gave up on the scenario
            /\ nskip' = IF e.ev # "TraceReset" /\ ~skip /\ R3Reorder THEN nskip + 1 ELSE nskip
            /\ win' = IF e.ev = "TraceReset" THEN "none" ELSE IF e.ev = "ClosedPre" /\ q \in Closers \cup {"TL"} THEN q ELSE IF e.ev = "ClosedPost" /\ win = q THEN "none" ELSE win
-           /\ rel' = IF e.ev = "TraceReset" THEN {} ELSE IF e.ev \in {"CloseExit", "CloseAlready"} /\ q \in Closers THEN rel \cup {q} ELSE rel
+           /\ rel' = IF e.ev = "TraceReset" THEN {} ELSE IF e.ev \in {"CloseExit", "CloseAlready"} /\ q \in Closers THEN rel \cup {q}
+                     ELSE IF e.ev = "CloseExit" /\ q = "TL" /\ tl = "closing" THEN rel \cup {"TL"} ELSE rel
            /\ gm' = IF e.ev = "TraceReset" THEN <<>>
                     ELSE IF e.ev = "Actor" THEN [x \in DOMAIN gm \cup {e.g} |-> IF x = e.g THEN e.s ELSE gm[x]]
                     ELSE IF IsAC THEN [x \in DOMAIN gm \cup {e.g} |-> IF x = e.g THEN AC ELSE gm[x]]
@@ -184,11 +198,17 @@ PendingStep(x) ==
 SilentStep ==
           /\ \/ KPre /\ UNCHANGED <<win, rel>>
              \/ win \notin {"none", "TL"} /\ win' = "none" /\ UNCHANGED rel /\ \E t \in InClose(win, "_clA") : CmFlip(win, t[2])
-             \/ win = "TL" /\ win' = "none" /\ UNCHANGED rel /\ T5(K, "k")
-             \/ \E x \in rel : rel' = rel \ {x} /\ UNCHANGED win /\ \E t \in InClose(x, "_clZ") : CmRelease(x, t[2], t[3])
+             \/ win = "TL" /\ win' = "none" /\ UNCHANGED rel /\ (T5(K, "k") \/ TLFireW)
+             \/ \E x \in rel \ {"TL"} : rel' = rel \ {x} /\ UNCHANGED win /\ \E t \in InClose(x, "_clZ") : CmRelease(x, t[2], t[3])
+             \/ "TL" \in rel /\ rel' = rel \ {"TL"} /\ UNCHANGED win /\ TLCloseDone       \* the timeoutLoop's close() is through: closeMu released
              \/ UNCHANGED <<win, rel>> /\ closed /\ \E t \in FC : pc[t[1]] = t[2] \o "_disarm" /\ FrameDisarm(t[1], t[2])   \* rest of a torn frame
              \* EarlyArm: a goroutine that holds the frame lock armed its frame before the events that precede its WfArm line
              \/ UNCHANGED <<win, rel>> /\ NextIs({"ClosedPre", "ClosedPost", "TLExit"}) /\ \E t \in FC : pc[t[1]] = t[2] \o "_arm" /\ FrameArm(t[1], t[2]) /\ pc'[t[1]] = t[2] \o "_hdr"
+             \/ UNCHANGED <<win, rel>> /\ NextIs({"ClosedPre", "ClosedPost", "TLExit"}) /\ \E t \in FC : pc[t[1]] = t[2] \o "_disarm" /\ tl = "running" /\ FrameDisarm(t[1], t[2]) /\ ret' = ret
+             \* EarlyAcquire: the CloseEnter line follows closeMu.Lock(); a reader whose TryLock(closeMu) failed in between has its
+             \* readMu.unlock line before it
+             \/ /\ UNCHANGED <<win, rel>> /\ NextIs({"UnlockPre"}) /\ (\E y \in {R, K} : pc[y] = Pfx(y) \o "x_cl0")
+                /\ \E x \in Closers : \E t \in InClose(x, "_cl0") : ~t[4] /\ CmAcquire(x, t[2])
              \* closeWith(true) found closeMu taken -- by a casClosing or a waitGoroutines that has long finished when the line of the
              \* readMu.unlock that follows is written: the TryLock is placed inside that window
              \/ /\ UNCHANGED <<win, rel>>
